@@ -24,7 +24,7 @@ from ..util import calls_in, qual, formals, returns_of, raises_of, \
     raise_name, has_fact, bind
 from ..terms import Terms, plain, unsite, is_none, mk_cmp, match, V, ANY, \
     alternatives, subterms, lookup, presence, show, owner_terms, \
-    owner_views
+    owner_views, method_calls
 
 PL = "rig.place_and_route.place"
 PLACERS = {
@@ -506,6 +506,57 @@ def r2_kernel(program, rep):
     rep.floor("C02-R2", 14)
 
 
+def _sa_fixed_included(program, rep):
+    """Every placement map the annealer returns (or hands to its kernel)
+    contains the vertices pinned by location constraints: the map of fixed
+    vertices is merged into the initial placement before any of them."""
+    fn = program.get(PLACERS["sa"])
+    T = Terms(fn)
+    cfg = T.cfg
+    ips = calls_in(fn, "_initial_placement")
+    if len(ips) != 1:
+        raise AnalysisError("sa.place: one initial placement expected")
+    IP = T.term(ips[0])
+    FIX = None
+    from ..terms import stores as t_stores
+    for n, st, base, key, val in t_stores(T):
+        f = [plain(t) for t, p in T.all_facts(n) if p]
+        if base[0] == "new" and any(
+                t[0] == "call" and t[1] == ("global", "isinstance") and
+                t[2][1] == ("global", "LocationConstraint") for t in f):
+            FIX = base
+    if FIX is None:
+        raise AnalysisError("sa.place: the map of fixed vertices")
+    merges = [x for x in method_calls(T, "update")
+              if x[2] == IP and x[3] == [FIX]]
+    uses = []
+    for r in returns_of(fn):
+        if r.value is not None and T.term(r.value) == IP:
+            uses.append((cfg.node_of(r), "returned"))
+    for c in ast.walk(fn):
+        if isinstance(c, ast.Call) and c is not ips[0]:
+            try:
+                n = cfg.node_containing(c)
+            except AnalysisError:
+                continue
+            if any(T.term(a, n) == IP for a in c.args) and not (
+                    isinstance(c.func, ast.Attribute) and
+                    c.func.attr == "update"):
+                uses.append((n, "passed to %s" % unparse(c.func)))
+    ok = len(merges) >= 1 and bool(uses)
+    late = [what for n, what in uses
+            if not any(cfg.dominates(m[0], n) for m in merges)]
+    rep.check(ok and not late, "C02-R4", qual(fn), "the fixed vertices are "
+              "merged into the initial placement before it is returned, "
+              "finalised or given to the kernel", construct="fixed vertices "
+              "included", node=fn,
+              fail="the initial placement is %s before the fixed vertices "
+                   "have been merged into it: vertices pinned by a location "
+                   "constraint are missing from the result" % (
+                       ", ".join(late) or "never merged with the fixed "
+                       "vertices"))
+
+
 def _c_kernel(program, rep):
     """What CKernel.__init__ hands to the C library, on value terms: the
     resource index used for a vertex's requirement and for a chip's free
@@ -761,6 +812,7 @@ def r4_pairing(program, rep):
     rep.check(n_fin >= 2, "C02-R4", qual(fn), "the annealer expands the "
               "kernel's placements for the callback and for the result",
               construct="finalise sites %d" % n_fin, node=fn)
+    rep.guard("C02-R4", _sa_fixed_included, program, rep)
     # element-presence discipline in sequential's vertex-order rewrite
     fn = program.get(PLACERS["sequential"])
     fl = Flow(fn)
